@@ -178,6 +178,48 @@ fn call_iterate_nested() -> Result<Context> {
     Ok(c)
 }
 
+/// Name grid: two graphs (a callee and the main graph calling it) with two nodes each; every assignment of a
+/// name from {none, "a", "b"} to the two graphs and the four nodes that the builder accepts (node names are
+/// unique per graph, graph names per context - the same name in both graphs, or on a node and a graph, is legal).
+fn name_grid(code: usize) -> Result<Context> {
+    let pick = |k: usize| -> Option<&'static str> {
+        match (code / 3usize.pow(k as u32)) % 3 {
+            0 => None,
+            1 => Some("a"),
+            _ => Some("b"),
+        }
+    };
+    let c = create_context()?;
+    let f = c.create_graph()?;
+    if let Some(n) = pick(0) {
+        f.set_name(n)?;
+    }
+    let x = f.input(scalar_type(INT32))?;
+    if let Some(n) = pick(1) {
+        x.set_name(n)?;
+    }
+    let y = x.add(x.clone())?;
+    if let Some(n) = pick(2) {
+        y.set_name(n)?;
+    }
+    y.set_as_output()?;
+    f.finalize()?;
+    let g = c.create_graph()?;
+    if let Some(n) = pick(3) {
+        g.set_name(n)?;
+    }
+    let a = g.input(scalar_type(INT32))?;
+    if let Some(n) = pick(4) {
+        a.set_name(n)?;
+    }
+    let o = g.call(f, vec![a])?;
+    if let Some(n) = pick(5) {
+        o.set_name(n)?;
+    }
+    finish(&c, &g, o)?;
+    Ok(c)
+}
+
 /// one context holding every operation variant the builder accepts (each attempt that the builder
 /// rejects is skipped, the accepted variants are listed in the evidence)
 fn all_operations() -> Result<Context> {
@@ -522,6 +564,15 @@ pub fn corpus(thorough: bool) -> Vec<Entry> {
     for (n, f) in plain.iter() {
         let f = *f;
         push(n.to_string(), "plain", Box::new(move || es(f())));
+    }
+    // name grid: all 3^6 assignments minus those with a name clash inside one scope
+    for code in 0..729usize {
+        let d = |k: u32| (code / 3usize.pow(k)) % 3;
+        let clash = |a: usize, b: usize| a != 0 && a == b;
+        if clash(d(0), d(3)) || clash(d(1), d(2)) || clash(d(4), d(5)) {
+            continue; // rejected by the builder (C11's subject)
+        }
+        push(format!("plain:name_grid:{}", code), "plain", Box::new(move || es(name_grid(code))));
     }
     let modes = mpcx::modes();
     // inlining / optimization of the Call/Iterate contexts in every mode
